@@ -11,6 +11,7 @@ import Synphot.Driver.Ops.C16
 import Synphot.Driver.Ops.C14
 import Synphot.Driver.Ops.C15
 import Synphot.Driver.Ops.C11
+import Synphot.Driver.Ops.C19
 -- one import + one line in `dispatchers` per ops module
 open Lean Synphot
 
@@ -29,7 +30,8 @@ def dispatchers : List (String → Json → Option (M Json)) := [
   dispatchC16,
   dispatchC14,
   dispatchC15,
-  dispatchC11
+  dispatchC11,
+  dispatchC19
 ]
 
 def dispatch (op : String) (j : Json) : M Json :=
